@@ -3,6 +3,8 @@ package multi
 import (
 	"fmt"
 	"os"
+	"runtime"
+	"runtime/debug"
 	"strings"
 
 	"github.com/gobwas/pool/simctl"
@@ -34,6 +36,15 @@ func runSessions(r *eng.Run, scripts []*script, stick, segMode int) ([]*sessResu
 		r.Internalf("scheduler: %v", err)
 	}
 	SharedFlateDialer = NewSharedDialer()
+	// Real sync.Pools (the library's own, or ones a change introduces) are a
+	// source of nondeterminism the sim pool does not cover: collections are
+	// only allowed here, between executions, and two of them empty every
+	// sync.Pool, so that each execution starts from the same state. Together
+	// with GOMAXPROCS=1 (set by the driver for this engine) a sync.Pool then
+	// behaves as a deterministic per-process LIFO.
+	debug.SetGCPercent(-1)
+	runtime.GC()
+	runtime.GC()
 	res := make([]*sessResult, len(scripts))
 	for i, sc := range scripts {
 		i, sc := i, sc
